@@ -21,7 +21,7 @@ Plan of the proof (indices disappear early; Lemmas/Txt.lean restates the array p
 Also: `parseShort_no_tiers` (IndexError), `parseShort_keyword_counterexample` (label `IntervalTier`: ValueError),
 `segOK_row_iff` (exactly which labels `NoKw` excludes), `sample_read_back` + `#guard`s (non-vacuity).
 `parseShort_emit_strip` is the theorem WITHOUT the strip-invariance hypothesis: every name and label comes back stripped
-(`word_written_strip`, `readBlock_written_strip`); `parseShort_name_blank`: a tier named `" a "` comes back as `"a"`.
+(`word_written_strip`, `readBlock_written_strip`); `parseShort_name_blank_regression`: a tier named `" a "` comes back as `" a "` (names are read verbatim since fix A31).
 -/
 
 namespace C01
@@ -426,11 +426,11 @@ STRIPPED text — for EVERY text (`C01.word_written` is the case of a strip-inva
 theorem word_written_strip (s : List Char) : unescapeL (stripList (escapeL s)) = stripList s := by
   rw [stripList_escapeL, unescape_escape]
 
-/-- **`_fetchTextRow` on a written text row**, for EVERY name/label: it returns the text with leading and trailing white
-space removed (`str.strip()`), and the index just after the newline that follows the closing quote -/
-theorem fetchTextRow_row_strip (s : Txt) (i : Nat) (l : String) (rest : List Char)
+/-- `_fetchTextRow` on a written text row, either value of `stripText` -/
+theorem fetchTextRow_row_any (s : Txt) (i : Nat) (l : String) (rest : List Char) (st : Bool)
     (h : s.toList.drop i = row l ++ '\n' :: rest) :
-    Rd.fetchTextRow s i = .ok ((stripList l.toList).toArray, i + (row l).length + 1) := by
+    Rd.fetchTextRow s i st =
+      .ok ((unescapeL (if st then stripList (escapeL l.toList) else escapeL l.toList)).toArray, i + (row l).length + 1) := by
   have h1 : s.toList.drop (i + 1) = escapeL l.toList ++ q :: '\n' :: rest := by
     have := drop_add_of_drop s.toList i [q] (escapeL l.toList ++ q :: '\n' :: rest) (by rw [h]; simp [row])
     simpa using this
@@ -447,9 +447,26 @@ theorem fetchTextRow_row_strip (s : Txt) (i : Nat) (l : String) (rest : List Cha
   have hge : (row l).toArray.size ≥ 2 := by simp only [List.size_toArray, row_length]; omega
   unfold Rd.fetchTextRow
   rw [h1, hscan]
-  simp only [bind, Except.bind, he, hsl, hge, if_true, hin, List.toList_toArray, word_written_strip l.toList]
+  simp only [bind, Except.bind, he, hsl, hge, if_true, hin, List.toList_toArray]
   rw [index_nl s _ [] rest hnl (by simp)]
   rfl
+
+/-- **`_fetchTextRow` on a written text row**, for EVERY label: it returns the text with leading and trailing white
+space removed (`str.strip()`), and the index just after the newline that follows the closing quote -/
+theorem fetchTextRow_row_strip (s : Txt) (i : Nat) (l : String) (rest : List Char)
+    (h : s.toList.drop i = row l ++ '\n' :: rest) :
+    Rd.fetchTextRow s i = .ok ((stripList l.toList).toArray, i + (row l).length + 1) := by
+  rw [fetchTextRow_row_any s i l rest true h]
+  simp only [if_true, word_written_strip l.toList]
+
+/-- **`_fetchTextRow(…, stripText=False)` on a written text row** (the tier-NAME row of the short-format reader since fix A31),
+for EVERY name — leading / trailing blanks, tabs and line breaks, quotes, anything: it returns the name itself, character for
+character -/
+theorem fetchTextRow_row_raw (s : Txt) (i : Nat) (l : String) (rest : List Char)
+    (h : s.toList.drop i = row l ++ '\n' :: rest) :
+    Rd.fetchTextRow s i false = .ok (l.toList.toArray, i + (row l).length + 1) := by
+  rw [fetchTextRow_row_any s i l rest false h]
+  simp only [Bool.false_eq_true, if_false, unescape_escape]
 
 /-- **`_fetchTextRow` on a written text row** returns the label itself (every strip-invariant label), and the index
 just after the newline that follows the closing quote -/
@@ -569,10 +586,25 @@ def texts : AnyTier α → List String
   | .I t => t.name :: t.es.map (·.l)
   | .P t => t.name :: t.ps.map (·.l)
 
-/-- names and labels are strip-invariant.  For LABELS this is enforced by the code (the `IntervalTier` / `PointTier`
-constructors, `insertEntry`, … strip every label); for NAMES it is C01's own quantifier ("names … trimmed") and NOT enforced
-by any constructor — `parseShort_emit_strip` needs neither, `parseShort_name_blank` shows what happens to such a name. -/
+/-- names and labels are strip-invariant.  Only the LABEL part is ever needed (`StrippedLabels`; enforced by the code: the
+`IntervalTier` / `PointTier` constructors, `insertEntry`, … strip every label); tier NAMES are read verbatim by every reader
+since fix A31 (`parseShort_name_blank_regression`). -/
 def Stripped' (t : AnyTier α) : Prop := ∀ s ∈ texts t, pyStrip s = s
+
+def nameOf : AnyTier α → String
+  | .I t => t.name
+  | .P t => t.name
+def labelsOf : AnyTier α → List String
+  | .I t => t.es.map (·.l)
+  | .P t => t.ps.map (·.l)
+
+/-- labels are strip-invariant (names need not be: no reader strips names) -/
+def StrippedLabels (t : AnyTier α) : Prop := ∀ s ∈ labelsOf t, pyStrip s = s
+
+theorem Stripped'.labels {t : AnyTier α} (h : Stripped' t) : StrippedLabels t := by
+  intro s hs
+  apply h s
+  cases t <;> simp only [labelsOf, texts, List.mem_cons] at hs ⊢ <;> exact Or.inr hs
 
 /-- what the reader is expected to return for a tier -/
 def rawTier (num : α → String) : AnyTier α → RawTier
@@ -582,35 +614,33 @@ def rawTier (num : α → String) : AnyTier α → RawTier
 /-- what the reader is expected to return for a textgrid written with span `lo`, `hi` -/
 def rawOf (num : α → String) (g : Tg α) (lo hi : α) : RawTg := ⟨num lo, num hi, g.tiers.map (rawTier num)⟩
 
-/-- the tier with `str.strip()` applied to its name and to every label — what the SHORT-format reader returns for a tier
-whose name or labels have leading / trailing white space (`_fetchTextRow` strips every text, names included) -/
+/-- the tier with `str.strip()` applied to every label — what the SHORT-format reader returns for a tier whose labels have
+leading / trailing white space (`_fetchTextRow` strips every label; the NAME is read with `stripText=False`, fix A31) -/
 def stripT : AnyTier α → AnyTier α
-  | .I t => .I { t with name := pyStrip t.name, es := t.es.map fun e => { e with l := pyStrip e.l } }
-  | .P t => .P { t with name := pyStrip t.name, ps := t.ps.map fun p => { p with l := pyStrip p.l } }
+  | .I t => .I { t with es := t.es.map fun e => { e with l := pyStrip e.l } }
+  | .P t => .P { t with ps := t.ps.map fun p => { p with l := pyStrip p.l } }
 
-/-- the textgrid with every name and label stripped -/
+/-- the textgrid with every label stripped -/
 def stripTg (g : Tg α) : Tg α := { g with tiers := g.tiers.map stripT }
 
-theorem stripT_of_stripped (t : AnyTier α) (hs : Stripped' t) : stripT t = t := by
+theorem stripT_of_stripped (t : AnyTier α) (hs : StrippedLabels t) : stripT t = t := by
   cases t with
   | I t =>
-    have hn : pyStrip t.name = t.name := hs t.name (by simp [texts])
     have he : (t.es.map fun e => ({ e with l := pyStrip e.l } : Iv α)) = t.es := by
       rw [List.map_congr_left (g := id), List.map_id]
       intro e he
-      have : pyStrip e.l = e.l := hs e.l (by simp only [texts, List.mem_cons, List.mem_map]; exact Or.inr ⟨e, he, rfl⟩)
+      have : pyStrip e.l = e.l := hs e.l (by simp only [labelsOf, List.mem_map]; exact ⟨e, he, rfl⟩)
       simp [this]
-    simp only [stripT, hn, he]
+    simp only [stripT, he]
   | P t =>
-    have hn : pyStrip t.name = t.name := hs t.name (by simp [texts])
     have he : (t.ps.map fun p => ({ p with l := pyStrip p.l } : Pt α)) = t.ps := by
       rw [List.map_congr_left (g := id), List.map_id]
       intro p hp
-      have : pyStrip p.l = p.l := hs p.l (by simp only [texts, List.mem_cons, List.mem_map]; exact Or.inr ⟨p, hp, rfl⟩)
+      have : pyStrip p.l = p.l := hs p.l (by simp only [labelsOf, List.mem_map]; exact ⟨p, hp, rfl⟩)
       simp [this]
-    simp only [stripT, hn, he]
+    simp only [stripT, he]
 
-theorem stripTg_of_stripped (g : Tg α) (hs : ∀ t ∈ g.tiers, Stripped' t) : stripTg g = g := by
+theorem stripTg_of_stripped (g : Tg α) (hs : ∀ t ∈ g.tiers, StrippedLabels t) : stripTg g = g := by
   unfold stripTg
   rw [List.map_congr_left (g := id) (fun t ht => stripT_of_stripped t (hs t ht)), List.map_id]
 
@@ -669,7 +699,7 @@ theorem readBlock_written_strip (num : α → String) (hnum : ∀ x, NumWord (nu
       rw [← hS]; simp [blockL, blockOf, isI, bodySegs, joinNl]
     have r0 := fetchRow_line s 0 _ _ h0 (nl_not_mem_kw true) (kw_strip_ne true)
     have h1 := drop_line _ _ _ _ h0
-    have r1 := fetchTextRow_row_strip s _ t.name _ h1
+    have r1 := fetchTextRow_row_raw s _ t.name _ h1
     have h2 := drop_line _ _ _ _ h1
     have r2 := fetchRow_num s _ _ (hnum t.lo) _ h2
     have h3 := drop_line _ _ _ _ h2
@@ -692,7 +722,7 @@ theorem readBlock_written_strip (num : α → String) (hnum : ∀ x, NumWord (nu
       rw [← hS]; simp [blockL, blockOf, isI, bodySegs, joinNl]
     have r0 := fetchRow_line s 0 _ _ h0 (nl_not_mem_kw false) (kw_strip_ne false)
     have h1 := drop_line _ _ _ _ h0
-    have r1 := fetchTextRow_row_strip s _ t.name _ h1
+    have r1 := fetchTextRow_row_raw s _ t.name _ h1
     have h2 := drop_line _ _ _ _ h1
     have r2 := fetchRow_num s _ _ (hnum t.lo) _ h2
     have h3 := drop_line _ _ _ _ h2
@@ -711,7 +741,7 @@ theorem readBlock_written_strip (num : α → String) (hnum : ∀ x, NumWord (nu
 
 /-- **(a) per-block reading**: the tier block written by the emitter is read back as the tier — class, name, span and
 every entry, labels character for character; the entry loop stops at the end of the block -/
-theorem readBlock_written (num : α → String) (hnum : ∀ x, NumWord (num x)) (t : AnyTier α) (hs : Stripped' t) :
+theorem readBlock_written (num : α → String) (hnum : ∀ x, NumWord (num x)) (t : AnyTier α) (hs : StrippedLabels t) :
     Rd.readBlock (blockL (blockOf num t)).toArray (isI t) = .ok (rawTier num t) := by
   rw [readBlock_written_strip num hnum t, stripT_of_stripped t hs]
 
@@ -1092,11 +1122,11 @@ theorem ofString_emit (num : α → String) (g : Tg α) (lo hi : α) :
 
 /-- **C01, short format, whole file, EVERY name and label**: praatio's short-format reader applied to the text praatio's
 short-format emitter writes for ANY textgrid with at least one tier returns that textgrid with `str.strip()` applied to
-every tier name and every label (`stripTg`), and nothing else changed: the tiers in order, their class and span, every entry;
-times as the numerals that were written.  No strip-invariance hypothesis: labels always are strip-invariant in memory (the
-tier constructors strip them), so for labels `stripTg` changes nothing; tier NAMES are not stripped by any constructor, and a
-name with leading or trailing white space comes back without it (`parseShort_name_blank`; the long and the two JSON formats
-keep such a name, `C03.long_short_name_blank_counterexample`).
+every label (`stripTg`), and nothing else changed: the tiers in order, their class, NAME (verbatim — leading and trailing
+blanks, tabs, line breaks included; fix A31) and span, every entry; times as the numerals that were written.  No
+strip-invariance hypothesis: labels always are strip-invariant in memory (the tier constructors strip them), so for labels
+`stripTg` changes nothing; tier NAMES are not stripped by any constructor and, since fix A31, not by this reader either
+(`parseShort_name_blank_regression`; the long and the two JSON formats always kept such a name).
 
 Remaining hypotheses: `hnum` — a property of the numeral renderer, true of CPython's `repr`/`"%d"` output for every float;
 `hne` — the excluded case is `parseShort_no_tiers` (C01 quantifies over 1..n tiers); `hkw` — known reader defect A10, needed
@@ -1124,12 +1154,12 @@ theorem parseShort_emit_strip (num : α → String) (hnum : ∀ x, NumWord (num 
 /-- **C01, short format, whole file**: praatio's short-format reader applied to the text praatio's short-format
 emitter writes for ANY textgrid with at least one tier returns exactly that textgrid: the tiers in order, their
 class, name and span, every entry, labels character for character; times as the numerals that were written.
-(`hstr`: C01 quantifies over trimmed names, and labels are stripped by the tier constructors; without it:
-`parseShort_emit_strip`.) -/
+(`hstr`: LABELS are strip-invariant — enforced by the tier constructors; without it: `parseShort_emit_strip`.  No hypothesis on
+names: blanks, tabs and line breaks at either end of a name are kept since fix A31.) -/
 theorem parseShort_emit (num : α → String) (hnum : ∀ x, NumWord (num x)) (g : Tg α) (lo hi : α)
     (hne : g.tiers ≠ [])
     (hkw : ∀ t ∈ g.tiers, NoKw t)
-    (hstr : ∀ t ∈ g.tiers, Stripped' t)
+    (hstr : ∀ t ∈ g.tiers, StrippedLabels t)
     (hcr : ∀ t ∈ g.tiers, NoCRLF t) :
     Rd.parseShort (Txt.ofString (tgToShort num g lo hi)) = .ok (rawOf num g lo hi) := by
   rw [parseShort_emit_strip num hnum g lo hi hne hkw hcr, stripTg_of_stripped g hstr]
@@ -1315,9 +1345,9 @@ theorem sample_hyps :
 /-- non-vacuity: the whole-file theorem applies to `sampleTg` -/
 theorem sample_read_back :
     Rd.parseShort (Txt.ofString (tgToShort numN sampleTg 0 5)) = .ok (rawOf numN sampleTg 0 5) :=
-  parseShort_emit numN numN_word sampleTg 0 5 sample_hyps.1 sample_hyps.2.1 sample_hyps.2.2.1 sample_hyps.2.2.2
+  parseShort_emit numN numN_word sampleTg 0 5 sample_hyps.1 sample_hyps.2.1 (fun t ht => (sample_hyps.2.2.1 t ht).labels) sample_hyps.2.2.2
 
-/-! ### a tier NAME with surrounding blanks (no constructor strips names) comes back stripped from the short format -/
+/-! ### a tier NAME with surrounding blanks (no constructor strips names) comes back unchanged from the short format (A31, fixed) -/
 
 /-- one interval tier named `" a "` (blank, `a`, blank) with the single interval (0, 1, `x`) -/
 def blankNameTg : Tg Nat := ⟨[.I ⟨" a ", [⟨0, 1, "x"⟩], 0, 2⟩], none, none⟩
@@ -1337,30 +1367,25 @@ theorem blankName_hyps : blankNameTg.tiers ≠ [] ∧ (∀ t ∈ blankNameTg.tie
     simp only [texts, List.map_cons, List.map_nil, List.mem_cons, List.not_mem_nil, or_false] at hs
     rcases hs with rfl | rfl <;> decide
 
-/-- **the strip-invariance hypothesis on NAMES is needed for an exact round trip through the short format**: the tier named
-`" a "` — a legal in-memory object, no constructor strips names — satisfies every other hypothesis of `parseShort_emit`;
-the file written for it is read back with the tier renamed to `"a"` (`_fetchTextRow` strips every text).  Replayed on
-praatio: `Textgrid` with `IntervalTier(" a ", [(0, 1, "x")], 0, 2)`, `save(fn, "short_textgrid", False)`, `openTextgrid(fn,
-True).tierNames == ("a",)`; the long format and the two JSON formats return `(" a ",)`.  Outside C01's quantifier ("names
-… trimmed"). -/
-theorem parseShort_name_blank :
+/-- **a tier NAME with surrounding blanks, regression for A31 (fixed, db5fb4a)**: the tier named `" a "` — a legal in-memory
+object, no constructor strips names — is read back from the short file with its name unchanged, like from the long and the
+two JSON formats (`parseShort_emit` has no hypothesis on names any more).  Before the fix `_fetchTextRow` stripped every text,
+the name row included: `Textgrid` with `IntervalTier(" a ", [(0, 1, "x")], 0, 2)`, `save(fn, "short_textgrid", False)`,
+`openTextgrid(fn, True).tierNames` was `("a",)`. -/
+theorem parseShort_name_blank_regression :
     Rd.parseShort (Txt.ofString (tgToShort numN blankNameTg 0 2)) =
-      .ok ⟨"0", "2", [⟨"IntervalTier", "a", "0", "2", [["0", "1", "x"]]⟩]⟩ ∧
-    Rd.parseShort (Txt.ofString (tgToShort numN blankNameTg 0 2)) ≠ .ok (rawOf numN blankNameTg 0 2) := by
+      .ok ⟨"0", "2", [⟨"IntervalTier", " a ", "0", "2", [["0", "1", "x"]]⟩]⟩ ∧
+    Rd.parseShort (Txt.ofString (tgToShort numN blankNameTg 0 2)) = .ok (rawOf numN blankNameTg 0 2) := by
   have h := parseShort_emit_strip numN numN_word blankNameTg 0 2 blankName_hyps.1 blankName_hyps.2.1 blankName_hyps.2.2
-  have e : rawOf numN (stripTg blankNameTg) 0 2 = ⟨"0", "2", [⟨"IntervalTier", "a", "0", "2", [["0", "1", "x"]]⟩]⟩ := by
-    have h1 : pyStrip " a " = "a" := by decide
+  have e : rawOf numN (stripTg blankNameTg) 0 2 = ⟨"0", "2", [⟨"IntervalTier", " a ", "0", "2", [["0", "1", "x"]]⟩]⟩ := by
     have h2 : pyStrip "x" = "x" := by decide
     have h3 : numN 0 = "0" ∧ numN 1 = "1" ∧ numN 2 = "2" := by decide
-    simp only [rawOf, stripTg, blankNameTg, List.map_cons, List.map_nil, stripT, rawTier, h1, h2, h3]
+    simp only [rawOf, stripTg, blankNameTg, List.map_cons, List.map_nil, stripT, rawTier, h2, h3]
+  have e2 : rawOf numN blankNameTg 0 2 = ⟨"0", "2", [⟨"IntervalTier", " a ", "0", "2", [["0", "1", "x"]]⟩]⟩ := by
+    have h3 : numN 0 = "0" ∧ numN 1 = "1" ∧ numN 2 = "2" := by decide
+    simp only [rawOf, blankNameTg, List.map_cons, List.map_nil, rawTier, h3]
   rw [e] at h
-  refine ⟨h, ?_⟩
-  rw [h]
-  intro hc
-  have hn := congrArg (fun r => match r with
-    | Except.ok (r : RawTg) => r.tiers.map (fun (t : RawTier) => t.name) | Except.error _ => []) hc
-  revert hn
-  decide
+  exact ⟨h, by rw [h, e2]⟩
 
 def rawTierEq (a b : RawTier) : Bool :=
   a.cls == b.cls && a.name == b.name && a.xmin == b.xmin && a.xmax == b.xmax && a.entries == b.entries
@@ -1439,7 +1464,7 @@ theorem bad_b1_ok : ∃ r, Rd.readBlock (blockL badB1).toArray badB1.1 = .ok r :
     rw [← hS]; simp [blockL, badB1, joinNl]
   have r0 := fetchRow_line s 0 _ _ h0 (nl_not_mem_kw true) (kw_strip_ne true)
   have h1 := drop_line _ _ _ _ h0
-  have r1 := fetchTextRow_row s _ "a" _ h1 (noEdge_of_stripList _ (by decide))
+  have r1 := fetchTextRow_row_raw s _ "a" _ h1
   have h2 := drop_line _ _ _ _ h1
   have r2 := fetchRow_num s _ _ (numN_word 0) _ h2
   have h3 := drop_line _ _ _ _ h2
